@@ -197,8 +197,58 @@ fn replay(path: &str) -> i32 {
     }
 }
 
-fn selftest(what: &str, _args: &[String]) -> i32 {
+/// `selftest determinism`: many VERIF_SEED values, every engine, each run twice in
+/// separate sets of worker processes -- once with 1 worker and once with 16 -- and the
+/// digests of the full event logs must agree pairwise.
+fn selftest_determinism(args: &[String]) -> i32 {
+    let n_seeds: u64 = arg_after(args, "--seeds").and_then(|s| s.parse().ok()).unwrap_or(24);
+    let n_cases: usize = arg_after(args, "--cases").and_then(|s| s.parse().ok()).unwrap_or(24);
+    let base: u64 = std::env::var("VERIF_SEED").ok().and_then(|s| s.parse().ok()).unwrap_or(20261002);
+    let props = engine::ALL_PROPS;
+    let mut bad = 0;
+    let mut runs = 0;
+    for prop in props {
+        let Some(engine) = engine::engine_for(prop) else { continue };
+        // heavy engines: fewer seeds
+        let seeds = if matches!(*prop, "C03" | "C05" | "C01" | "C02" | "C11" | "C12" | "C13" | "C06") { (n_seeds / 8).max(2) } else { n_seeds };
+        for k in 0..seeds {
+            let ctx = Ctx { property: prop.to_string(), tier: Tier::Quick, seed: base + 1000 * k + 7, profile: "selftest".into() };
+            let total = engine.num_cases(&ctx);
+            // a spread of cases, not just the first ones
+            let step = (total / n_cases.max(1)).max(1);
+            let only: Vec<usize> = (0..total).step_by(step).take(n_cases).collect();
+            runner::set_hang_secs(engine.hang_secs());
+            let mut digests = Vec::new();
+            for workers in ["1", "16", "5"] {
+                // SAFETY-free: set_var before any thread of this process is spawned by supervise
+                std::env::set_var("VERIF_WORKERS", workers);
+                let out = runner::supervise(&ctx, total, Some(only.clone()));
+                if !out.harness_errors.is_empty() {
+                    eprintln!("HARNESS-ERROR: {prop} seed {}: {:?}", ctx.seed, out.harness_errors);
+                    bad += 1;
+                }
+                digests.push(runner::run_digest(&out.results));
+                runs += 1;
+            }
+            let ok = digests.iter().all(|d| *d == digests[0]);
+            if !ok {
+                eprintln!("NONDETERMINISM: {prop} seed {} digests {:x?}", ctx.seed, digests);
+                bad += 1;
+            }
+        }
+        println!("selftest determinism: {prop}: {} seeds x {} cases x workers {{1,16,5}}: {}", seeds, n_cases, if bad == 0 { "identical digests" } else { "MISMATCH" });
+    }
+    println!("selftest determinism: {runs} supervised runs, {bad} problems");
+    if bad == 0 {
+        0
+    } else {
+        2
+    }
+}
+
+fn selftest(what: &str, args: &[String]) -> i32 {
     match what {
+        "determinism" => selftest_determinism(args),
         _ => {
             eprintln!("selftest {what}: not implemented yet");
             2
